@@ -149,6 +149,10 @@ func (s *LinkedLog) ReadWithSize(offset uint64, size uint64) ([]OffsetAndSizeAnd
 	// debugln("compactedIndexesLen:", compactedIndexesLen)
 	// Read the compressed indexes
 	prefixLen := sizeOfLengthPrefix(size)
+	if size < uint64(prefixLen)+9 {
+		// A record is at least its length prefix plus the 9-byte `next` offset.
+		return nil, indexes.OffsetAndSize{}, fmt.Errorf("compacted indexes length too small: %d", size)
+	}
 	data := make([]byte, size-uint64(prefixLen)) // The size bytes have already been read.
 	_, err := s.file.ReadAt(data, int64(offset)+int64(prefixLen))
 	if err != nil {
